@@ -197,7 +197,9 @@ func kindCases() []kcase {
 	generic := kNamedIn(kpath("ka"), "ka", "G", []ktype{b, c}, kStruct("g.u", []ktype{hidden}))
 	generic.Methods["TypeParams"] = tmeth(tparams)
 	generic.Methods["Origin"] = tmeth(generic)
-	alias := &interp.Opaque{Kind: "types.Type", ID: "alias", GoType: "*go/types.Alias"}
+	// what the alias stands for (types.Unalias, Rhs, Underlying) mentions only a package the printer never
+	// prints here: a walker that resolves the alias instead of visiting its type arguments loses kb and kc
+	alias := &interp.Opaque{Kind: "types.Type", ID: "alias", GoType: "*go/types.Alias", Attrs: map[string]interp.Value{"unalias": hidden}}
 	aobj := &interp.Opaque{Kind: "types.TypeName", ID: "alias.obj", GoType: "*go/types.TypeName", Methods: mmap{"Pkg": tmeth(pkgOpaque(kpath("ka"), "ka")), "Name": tmeth(interp.Lit("A"))}}
 	alias.Methods = mmap{"Obj": tmeth(aobj), "Rhs": tmeth(hidden), "Underlying": tmeth(kStruct("alias.u", []ktype{hidden})), "TypeParams": tmeth(interp.NilV{}),
 		"TypeArgs": tmeth(&interp.Opaque{Kind: "types.TypeList", ID: "alias.targs", GoType: "*go/types.TypeList", Methods: mmap{"Len": tmeth(int64(2)), "At": indexed("TypeList.At", []interp.Value{b, c}), "Types": tmeth(seqOfT([]ktype{b, c}))}})}
@@ -331,6 +333,14 @@ func kindsTable(c *Ctx) {
 		w, err := newNameWorld(prog)
 		var v *interp.Struct
 		if err == nil {
+			w.m.Ext["go/types.Unalias"] = func(m *interp.Machine, p token.Pos, recv interp.Value, a []interp.Value) (interp.Value, error) {
+				if o, ok := a[0].(*interp.Opaque); ok {
+					if u, ok := o.Attrs["unalias"]; ok {
+						return u, nil
+					}
+				}
+				return a[0], nil
+			}
 			v, err = w.add(interp.Lit("x"), tc.t, "")
 		}
 		if err == nil && w.m.Choices.Forked() {
